@@ -123,6 +123,7 @@ def run_symbolic(ob, grid, timeout_ms=20000, max_leaves=3000):
     reset_ctx()
     prove.USE_UF[0] = bool(ob.uf_congruence)
     prove.LAST_PROVED_SMT[0] = None
+    prove.STATS['cvc5_seconds'] = 0.0       # the cross-check budget is per job
     T.reset_called()
     t0 = time.time()
     out = dict(oid=ob.oid(grid), status=None, nleaves=0, results=[], cex=None, error=None, seconds=0.0,
